@@ -173,6 +173,28 @@ def match_known(v, known):
     return None
 
 
+def build_decoy_cwd(base):
+    """A working directory for some of the fresh interpreters that contains files NAMED like the shipped tables
+    but holding ANOTHER table's text (also under ./data/): a library that consults the current directory - or a
+    relative path - at any point answers differently there than in an empty directory ('a different process')."""
+    src = os.path.join(pristine.src_dir(), "htstabilizer", "data")
+    d = os.path.join(base, "decoy-cwd")
+    os.makedirs(os.path.join(d, "data"), exist_ok=True)
+    names = sorted(f for f in os.listdir(src) if f.endswith(".txt"))
+    for kind in ("stabilizer", "mub"):
+        group = [f for f in names if f.startswith(kind)]
+        for i, f in enumerate(group):
+            n = f[len(kind)]
+            same_n = [g for g in group if g[len(kind)] == n and g != f]
+            other = same_n[i % len(same_n)] if same_n else group[(i + 1) % len(group)]
+            with open(os.path.join(src, other)) as fh:
+                text = fh.read()
+            for sub in ("", "data"):
+                with open(os.path.join(d, sub, f), "w") as out:
+                    out.write(text)
+    return d
+
+
 class Scratch:
     def __init__(self):
         base = os.path.join(VERIF, "scratch")
@@ -309,6 +331,7 @@ class Check:
             a["transitions"].update(rep["transitions"])
             a["intr_sites"].update(tuple(s) for s in rep["intr_sites"])
             a["opaque"] += rep.get("opaque", 0)
+            a["files_written"] = a.get("files_written", 0) + rep.get("files_written", 0)
             a["sim_time"] = a.get("sim_time", 0.0) + rep.get("sim_time", 0.0)
             a["clock_reads"] = a.get("clock_reads", 0) + rep.get("clock_reads_by_library", 0)
             a["warm_files"].update(rep.get("warm", []))
@@ -333,7 +356,8 @@ class Check:
         from . import fresh
         procs = []
         half = [samples[0::2], samples[1::2]]
-        seeds = [(101, "/", "C"), (2024, scratch.dir, "POSIX")]
+        decoy = build_decoy_cwd(scratch.dir)
+        seeds = [(101, "/", "C"), (2024, decoy, "POSIX")]
         # R2: every sampled key under TWO other hash seeds
         for hs, cwd, lc in seeds:
             for part in half:
@@ -440,8 +464,24 @@ class Check:
             jobs.append(j)
         futs = [pool.submit(worker_task, [j]) for j in jobs]
         from . import fresh
-        procs = [fresh.launch({"mode": "generate", "jobs": jobs[k::2]}, 31337 + k, VERIF, "/", "C") for k in range(2)
-                 if jobs[k::2]]
+        # the fresh interpreters are started TWICE over the same HOME / cache / temp directory (their run children
+        # keep that HOME): the second start is "a process that finds what an earlier process left on disk" -
+        # restart with only durable state surviving. Both must reproduce the original event log.
+        import tempfile
+        homes = [tempfile.mkdtemp(prefix="home-restart-", dir=scratch.dir) for _ in range(2)]
+        jobs2 = [dict(j, keep_home=True) for j in jobs]
+        procs = []
+        for round_no in range(2):
+            started = [fresh.launch({"mode": "generate", "jobs": jobs2[k::2]}, 31337 + k, VERIF, "/", "C", home=homes[k])
+                       for k in range(2) if jobs2[k::2]]
+            if round_no == 0:
+                for p in started:       # the first generation of processes must be gone before the second starts
+                    try:
+                        p._htsim_doc = fresh.collect(p)
+                    except Exception as e:
+                        p._htsim_doc = e
+            procs.extend(started)
+        res["restart_rounds"] = 2
         want = {(r["job"]["batch"], r["job"]["i"]): (r["history_digest"], r["log_digest"]) for r in base}
         for f in futs:
             for rr in f.result()["reports"]:
@@ -454,14 +494,20 @@ class Check:
                     res["mismatches"].append({"where": "pool", "job": rr["job"]})
         byk = {(r["job"]["batch"], r["job"]["i"]): r for r in base}
         res["process_dependent"] = []
+        res["fresh_interpreter_runs"] = 0
         for p in procs:
             try:
-                doc = fresh.collect(p)
+                doc = getattr(p, "_htsim_doc", None)
+                if doc is None:
+                    doc = fresh.collect(p)
+                if isinstance(doc, Exception):
+                    raise doc
             except Exception as e:
                 self.harness_errors.append({"job": {"r": "determinism"}, "error": str(e)})
                 continue
             for rr in doc["out"]:
                 k = (rr["job"]["batch"], rr["job"]["i"])
+                res["fresh_interpreter_runs"] += 1
                 if "harness_error" in rr:
                     self.harness_errors.append({"job": rr["job"], "error": rr["harness_error"]})
                 elif (rr["history_digest"], rr["log_digest"]) == want[k]:
@@ -633,7 +679,7 @@ def cmd_check(tier, seed, nworkers, scale):
             f"states={len(a['states'])} transitions={len(a['transitions'])} R1 miss/hit={a['oracle']['r1_miss']}/{a['oracle']['r1_hit']} "
             f"R2 {ref['r2_agree']}/{ref['r2_keys']} single {ref['r2_single_agree']}/{ref['r2_single']} "
             f"R3 {ref['r3_agree']}/{ref['r3_replays']} det pool {det['pool_rerun_equal']}/{det['seeds']} "
-            f"fresh {det['fresh_interpreter_equal']}/{det['seeds']} wall={wall:.0f}s")
+            f"fresh+restart {det['fresh_interpreter_equal']}/{det.get('fresh_interpreter_runs', det['seeds'])} wall={wall:.0f}s")
     for ln in lines:
         print(ln)
     if chk.harness_errors:
@@ -685,6 +731,7 @@ def evidence(chk, ref, det, state, wall, t_batches, new, kn):
             "simulated_time_note": "virtual clock advanced between the caller's actions (per-run regime: none / ms / minutes / "
                                    "days / mixed); the pinned library never reads a clock - reads from library frames are counted",
             "clock_reads_by_library_frames": a.get("clock_reads", 0),
+            "files_left_in_private_home_or_tmp_by_run_children": a.get("files_written", 0),
             "by_batch": a["by_batch"], "batch_meaning": BATCH_DOC,
             "calls": {"total": st.get("calls", 0), "judged": st.get("calls_judged", 0), "raising": st.get("calls_raising", 0),
                       "faulted_not_judged": st.get("calls_faulted", 0),
@@ -703,7 +750,9 @@ def evidence(chk, ref, det, state, wall, t_batches, new, kn):
                 "F4_interrupts": {"armed": st.get("interrupts_armed", 0), "fired": st.get("interrupts_fired", 0),
                                   "armed_not_fired": st.get("interrupts_not_fired", 0), "by_file": fam("intr_in:"),
                                   "distinct_sites_file_line": len(a["intr_sites"])},
-                "F5_other_process": {"r2_keys_two_hash_seeds": ref["r2_keys"], "r3_history_replays": ref["r3_replays"]},
+                "F5_other_process": {"r2_keys_two_hash_seeds": ref["r2_keys"], "r3_history_replays": ref["r3_replays"],
+                                 "environments": "hash seed 101 / cwd '/' / LC_ALL=C   versus   hash seed 2024 / a cwd that holds "
+                                                 "decoy files named like the shipped tables (./ and ./data/) / LC_ALL=POSIX"},
                 "F6_failing_requests": {"calls_raising": st.get("calls_raising", 0)},
             },
             "alphabet": {"ops": len(OPS), "ops_called": len(fam("op:")), "ops_never_called": sorted(set(OPS) - set(fam("op:"))),
@@ -755,16 +804,17 @@ def cmd_replay(path):
     if cls[0] == "I3":
         # process-dependence: the same call / the same history in fresh interpreters with different hash seeds
         from . import fresh
-        seeds = (0, 101, 2024, 31337, 7)
+        decoy = build_decoy_cwd(pristine_scratch.dir)
+        envs = [(0, "/"), (101, "/"), (2024, decoy), (31337, decoy), (7, "/")]     # the environments the check itself uses
         if doc["violation"].get("i3_mode") == "single":
             st = doc["steps"][0]
             req = {"op": st["op"], "args": [a["lit"] for a in st["args"]], "kw": [[k, a["lit"]] for k, a in st["kw"]], "same": {}}
-            ps = [fresh.launch({"mode": "single", "req": req}, hs, VERIF) for hs in seeds]
+            ps = [fresh.launch({"mode": "single", "req": req}, hs, VERIF, cwd) for hs, cwd in envs]
             outs = [fresh.collect(p)["out"] for p in ps]
             bad = any(o.get("out") != outs[0].get("out") for o in outs)
         else:
             job = {"mode": "replay", "steps": doc["steps"], "judge": False, "want_events": True}
-            ps = [fresh.launch({"mode": "replay", "jobs": [job]}, hs, VERIF) for hs in seeds]
+            ps = [fresh.launch({"mode": "replay", "jobs": [job]}, hs, VERIF, cwd) for hs, cwd in envs]
             logs = [project(fresh.collect(p)["out"][0].get("events") or []) for p in ps]
             bad = False
             for lg in logs[1:]:
